@@ -4,6 +4,7 @@ import (
 	"bytes"
 	"fmt"
 	"math"
+	"sync"
 
 	"github.com/wi1dcard/fingerproxy/pkg/verifhook"
 )
@@ -29,6 +30,10 @@ type HeaderField struct {
 }
 
 type HTTP2FingerprintingFrames struct {
+	// mu guards all fields below: the HTTP/2 server keeps recording frames
+	// while request handlers of the same connection read them.
+	mu sync.RWMutex
+
 	// Data from SETTINGS frame
 	Settings []Setting
 
@@ -42,6 +47,12 @@ type HTTP2FingerprintingFrames struct {
 	Headers []HeaderField
 }
 
+// Lock must be held while any of the fields is modified.
+func (f *HTTP2FingerprintingFrames) Lock() { f.mu.Lock() }
+
+// Unlock releases the lock taken by Lock.
+func (f *HTTP2FingerprintingFrames) Unlock() { f.mu.Unlock() }
+
 func (f *HTTP2FingerprintingFrames) String() string {
 	return f.Marshal(math.MaxUint)
 }
@@ -50,6 +61,8 @@ func (f *HTTP2FingerprintingFrames) String() string {
 func (f *HTTP2FingerprintingFrames) Marshal(maxPriorityFrames uint) string {
 	var buf bytes.Buffer
 	verifhook.At("metadata.marshal.begin", f)
+	f.mu.RLock()
+	defer f.mu.RUnlock()
 
 	// SETTINGS frame
 	for i, s := range f.Settings {
